@@ -685,11 +685,11 @@ theorem resolveSub_normalSub {shape : List Nat} (hpos : ∀ n ∈ shape, 0 < n) 
   | none => simp only [resolveSub, Option.some.injEq] at h; subst h; exact fullSlices_normalSub hpos
   | some l => exact verifySub_normalSub h
 
-/-- **`FullResolutionFetcher(reader, index=i)[subscript]` reads image `i`**: formatted, squeezed, and the subscript the
+/-- **`FullResolutionFetcher(reader, index=i)[subscript]` reads image `i`**: formatted, not squeezed, and the subscript the
     segment of image `i` ends up with is `verify_subscript(subscript, shape of image i)` -/
 theorem fetcher_reads_its_image {r : List Image} {index : Nat} {sub : List SubEntry} {sel : Sel}
     (h : fetcherGetitem r index sub = .ok sel) :
-    sel.image = index ∧ sel.raw = false ∧ sel.squeeze = true ∧
+    sel.image = index ∧ sel.raw = false ∧ sel.squeeze = false ∧
       ∃ im ts, r[index]? = some im ∧ verifySub im.fshape sub = some ts ∧ resolveSub im.fshape sel.sub = some ts := by
   unfold fetcherGetitem at h
   cases him : r[index]? with
@@ -700,7 +700,7 @@ theorem fetcher_reads_its_image {r : List Image} {index : Nat} {sub : List SubEn
     | none => simp [hv] at h
     | some ts =>
       simp only [hv] at h
-      replace h : readerCall r.length (ts.map (fun t => PyVal.slice t.toPy)) index false true = .ok sel := h
+      replace h : readerCall r.length (ts.map (fun t => PyVal.slice t.toPy)) index false false = .ok sel := h
       have hlt : index < r.length := by
         have := List.getElem?_eq_some_iff.mp him
         exact this.1
@@ -845,6 +845,6 @@ example : aggMap [2, 1, 3] = [(0, 0), (0, 1), (1, 0), (2, 0), (2, 1), (2, 2)] :=
 example : aggDispatch [2, 1, 3] (.read [] 4 true) = .ok (⟨4, false, true, none⟩, 2, 1) := by decide
 -- the fetcher built for image 1 of a two-image reader
 example : fetcherGetitem [⟨[4, 5], [4, 5]⟩, ⟨[3, 6], [3, 6]⟩] 1 [.item (.slice ⟨some 0, some 2, none⟩), .ell] =
-    .ok ⟨1, false, true, some [.item (.slice ⟨some 0, some 2, some 1⟩), .item (.slice ⟨some 0, some 6, some 1⟩)]⟩ := by decide
+    .ok ⟨1, false, false, some [.item (.slice ⟨some 0, some 2, some 1⟩), .item (.slice ⟨some 0, some 6, some 1⟩)]⟩ := by decide
 
 end Sarpy.Props.C01
